@@ -1202,3 +1202,27 @@ package xmpp
 //@   ensures[C03,C04] result1 <==> start.Name.Local == "failure" && start.Name.Space == "urn:ietf:params:xml:ns:xmpp-sasl"
 //@   ensures[C03,C04] result1 <==> decoded
 //@   ensures[C03,C04] !result1 ==> result2 == nil
+
+// C05: the element variants wrap exactly the given payload in exactly the given
+// stanza and send that through the corresponding blocking send.
+//@ func (*Session).SendIQElement
+//@   ghost wrapped xml.TokenReader
+//@   callsite (mellium.im/xmpp/stanza.IQ).Wrap#1
+//@     assert[C05] arg0 == iq && arg1 == payload
+//@     after: wrapped = ret0
+//@   callsite (*Session).SendIQ#1
+//@     assert[C05] arg0 == s && arg1 == ctx && arg2 == wrapped
+//@ func (*Session).SendMessageElement
+//@   ghost wrapped xml.TokenReader
+//@   callsite (mellium.im/xmpp/stanza.Message).Wrap#1
+//@     assert[C05] arg0 == msg && arg1 == payload
+//@     after: wrapped = ret0
+//@   callsite (*Session).SendMessage#1
+//@     assert[C05] arg0 == s && arg1 == ctx && arg2 == wrapped
+//@ func (*Session).SendPresenceElement
+//@   ghost wrapped xml.TokenReader
+//@   callsite (mellium.im/xmpp/stanza.Presence).Wrap#1
+//@     assert[C05] arg0 == msg && arg1 == payload
+//@     after: wrapped = ret0
+//@   callsite (*Session).SendPresence#1
+//@     assert[C05] arg0 == s && arg1 == ctx && arg2 == wrapped
